@@ -4,7 +4,7 @@ from ..dispatch import arm_of
 from . import common as C
 
 META = {
-    "explanation": "R1 dispatch-table rows: -depth/-d/-delete set Config.depth_first=true, nothing else writes it (field writers), WalkDir::contents_first receives it; -sorted sets sorted_output and installs sort_by(a.file_name().cmp(b.file_name())) under it; "
+    "explanation": "R5 contract W4: under -depth the depth-0 entry is held back until the walker is exhausted (walkdir yields a followed root link before its contents); R1 dispatch-table rows: -depth/-d/-delete set Config.depth_first=true, nothing else writes it (field writers), WalkDir::contents_first receives it; -sorted sets sorted_output and installs sort_by(a.file_name().cmp(b.file_name())) under it; "
                    "R2 who-may-call: only PruneMatcher marks the skip flag, under file_type().is_dir() of the entry, always true; flag per-entry (MatcherIO::new inside the loop, flag written only by the marker and the constructor); "
                    "R3 skip_current_dir on the walk iterator iff should_skip_current_dir() after matches in the same iteration; R4 walkdir contract W2: that call is guarded by !depth_first",
     "decides": "the code paths by which order and pruning are configured and applied, for every expression and tree",
@@ -183,6 +183,33 @@ def run(ctx):
     for m in gg.nodes("matches"):
         r = gg.reach([m], stop_roles=("next",))
         ctx.ob("R3", "skip-consulted-after-matches", any(C.base(x) == "should_skip" for x in r), "should_skip_current_dir is not consulted between matches and the next fetch", fn=pf, how="event graph")
+
+    # ---- R5 contract W4: a followed root link is yielded before its contents even with contents_first ------------------------
+    # walkdir (2.5, IntoIter::handle_entry): only a *normal* directory is deferred under contents_first; a depth-0 symlink
+    # that follow_root_links resolves to a directory is pushed *and* yielded at once. So when contents_first(depth_first) and
+    # follow_root_links(follow != Never) can both be set, the caller has to hold the starting point back itself.
+    frl = [(b, t) for b, t in pf.calls() if (t.callee or "").startswith("walkdir::WalkDir::follow_root_links")]
+    cf = [(b, t) for b, t in pf.calls() if (t.callee or "").startswith("walkdir::WalkDir::contents_first")]
+    both_possible = False
+    if frl and cf:
+        a = prim.origin_of_operand(pf, frl[0][1].args[1]).strip()
+        c = prim.origin_of_operand(pf, cf[0][1].args[1]).strip()
+        both_possible = not (a.k == "const" and a.a.get("v") is False) and not (c.k == "const" and c.a.get("v") is False)
+    if both_possible:
+        sb = [(b, st) for b in pf.reachable() for st in pf.blocks[b].stmts if C.walk_stmt_role(pf, b, st) == "stash"]
+        ok = False
+        desc = "no entry is ever held back"
+        for b, st in sb:
+            gs = prim.dominating_guards(pf, b)
+            has_df = any(gd["pred"].strip().k == "field" and gd["pred"].strip().a == "depth_first" and gd["bool"] is True for gd in gs)
+            has_d0 = any(gd["pred"].strip().k == "bin" and gd["pred"].strip().a == "Eq" and gd["bool"] is True and any(cc.get("v") == 0 for cc in gd["pred"].consts()) and any(x.endswith("WalkEntry::depth") for x in gd["pred"].callees()) for gd in gs)
+            extra = [gd["pred"].fmt()[:60] for gd in gs if gd["pred"].strip().k == "call" and gd["pred"].strip().a["name"] in ("is_dir", "is_symlink", "path_is_symlink", "follow")]
+            desc = "held back under depth_first=%s, depth()==0=%s" % (has_df, has_d0)
+            if has_df and has_d0:
+                ok = True
+        ctx.ob("R5", "starting-point-last-under-depth", ok,
+               "walkdir contract W4: with follow_root_links a starting point that is a symbolic link to a directory is yielded *before* its contents even when contents_first is set; under -depth the depth-0 entry therefore has to be held back until the walk below it is over (%s). `find -H link -depth` otherwise prints `link` first, and `find -H link -delete` unlinks the link before its contents" % desc,
+               fn=pf, where=prim.site(pf, frl[0][0]), how="dominating guards of the deferred-slot store (API contract W4)")
 
 
 def _via_depth_guard(pf, skips):
